@@ -126,6 +126,9 @@ def run(ctx: Ctx):
     from .sat_common import _need
 
     ctx.step(_need, "C05-O4", "R14 GATE", ctx.func("cp", "Model._propagate"), "propagation fails on an empty domain before and after every constraint pass (a variable with an empty range has no value even in a model without constraints)", ["if any((not d for d in domains.values())):\n        return False", "for n, d in domains.items():\n                if not d:\n                    return False"], "without the test in front a model whose only flaw is an empty range reaches the leaf, where the value of that variable is read from an empty set")
+    ctx.step(_need, "C05-O13", "R14 GATE", ctx.func("cp", "Model.int_var"), "a variable name is used once per model (both back-ends look variables up by name)", ["if name in self._vars:\n        raise ValueError"], "a second variable of the same name replaces the first in the name table: constraints on the first are then evaluated against the second's domain and the back-ends disagree")
+    ctx.step(_need, "C05-O13", "R14 GATE", ctx.func("cp", "Model.add"), "only constraint tuples are stored", ["if not isinstance(constraint, tuple):\n        raise TypeError", "self._constraints.append(constraint)"], "anything else (a comparison Python already evaluated to False) is skipped by both back-ends, so a model with an unsatisfiable 'constraint' is answered with a solution")
+    ctx.step(_need, "C05-O13", "R14 GATE", ctx.func("cp", "Model.cumulative"), "cumulative rejects negative demands (the capacity encoding enumerates minimal overloading subsets, which presumes loads only grow)", ["if any((d < 0 for d in demands)):\n        raise ValueError"])
     # O5 hints
     ctx.step(check_hints, dfs, sink="domains")
     ctx.step(check_hints, ctx.func("cp_encoder", "SATEncoder.solve"), sink="assumptions")
@@ -369,6 +372,16 @@ def _v_sum_stores_callers_list(tree):
     M.replace_expr(g, lambda e: M.src_is(e, "tuple(variables)"), M.expr("variables"))
 
 
+def _v_duplicate_names_accepted(tree):
+    g = M.find_func(tree, "Model.int_var")
+    M.replace_stmt(g, lambda s: isinstance(s, ast.If) and M.src_is(s.test, "name in self._vars"), [])
+
+
+def _v_add_accepts_anything(tree):
+    g = M.find_func(tree, "Model.add")
+    M.replace_stmt(g, lambda s: isinstance(s, ast.If) and M.src_has(s.test, "isinstance(constraint, tuple)"), [])
+
+
 def _v_alldiff_identity(tree):
     g = M.find_func(tree, "Model._propagate_all_different")
     M.replace_expr(g, lambda e: M.src_is(e, "j != i"), M.expr("other is not var"))
@@ -424,6 +437,8 @@ def _v_alldiff_min_ub(tree):
 
 
 VARIANTS = [
+    M.Variant("a second variable may take a name already in use (original defect)", CP, _v_duplicate_names_accepted, "C05-O13"),
+    M.Variant("Model.add stores whatever it is given (original defect)", CP, _v_add_accepts_anything, "C05-O13"),
     M.Variant("sum_le stores the caller's list instead of a snapshot (seed C05-N)", CP, _v_sum_stores_callers_list, "C05-O13"),
     M.Variant("auxiliary variables are built through the model: every solve advances the model's literal counter (original defect)", ENC, _v_aux_through_model, "C05-O10"),
     M.Variant("sum_le over no variables emits nothing (original defect)", ENC, _v_sum_le_empty_unchecked, "C05-O14"),
